@@ -53,6 +53,11 @@ ATOMS = [
     ('"\\ud83d"', 'str-escape-lone-surrogate'),
     ('"\\\\n"', 'str-escaped-backslash-then-letter'),
     ('"a\\\\/b"', 'str-escaped-backslash-then-solidus'),
+    # an escaped backslash in front of EVERY ASCII letter and digit (a path
+    # such as C:\\apps\\Users\\Nightly): none of them may come alive as an escape
+    ('"' + ''.join('\\\\' + c for c in (
+        'abcdefghijklmnopqrstuvwxyzABCDEFGHIJKLMNOPQRSTUVWXYZ0123456789'))
+     + '"', 'str-escaped-backslash-then-every-alnum'),
     ('"\u00e9\u20ac"', 'str-raw-nonascii'),
     ('"\U0001f600"', 'str-raw-astral'),
     ('0', 'num-zero'),
@@ -92,6 +97,7 @@ KEYS = [
     ('"\\u0061"', 'key-escape-u-ascii'),      # decodes to the same key as "a"
     ('"\\/"', 'key-escape-solidus'),
     ('"\'k\'"', 'key-apostrophes-at-ends'),
+    ('"C:\\\\apps\\\\Users\\\\Nightly"', 'key-escaped-backslash-then-letter'),
 ]
 PLAIN = set(['str-plain', 'num-int', 'num-zero', 'true', 'false', 'null',
              'str-empty'])
